@@ -11,6 +11,7 @@ import (
 	"reflect"
 	"runtime"
 	"sort"
+	"strings"
 	"sync"
 	"testing/synctest"
 	"time"
@@ -1187,6 +1188,7 @@ func runStoreCrashAll(seed uint64) {
 		for mi, mode := range crashModes {
 			s := newStoreSimFor(w, p, seed)
 			s.disk.crashAt = k
+			s.disk.keepLog = os.Getenv("VERIF_OPSEQ") != ""
 			s.crashMode = mode
 			s.crashSeed = seed*31 + uint64(k*4+mi) + uint64(envInt("VERIF_TORNSEED", 0))*1000003
 			crashed := false
@@ -1204,6 +1206,9 @@ func runStoreCrashAll(seed uint64) {
 			if !crashed {
 				s.closeDB()
 				continue
+			}
+			if s.disk.keepLog {
+				w.j.logf("OPSEQ k=%d %s: %s", k, mode, strings.Join(s.disk.opLog, " | "))
 			}
 			points++
 			if points%8 == 0 {
